@@ -34,3 +34,14 @@ Theorem arith_mask_matrix_order_refuted :
 Proof.
   exists [1; 2]%Z, [(2%Z, CGt 27); (1%Z, CGt 1)], [[7; 35]]. vm_compute. discriminate.
 Qed.
+
+(* C18 (repaired by a fix: commit): untied_rank_ = argsort(rank_) + 1 is the sorting permutation,
+   not a ranking: the worst alternative of [2;1;1] came out second *)
+From SKC Require Import Model.Untie.
+Theorem argsort_untie_refuted :
+  exists r, argsort_plus_1 r <> untie r /\
+            exists i j, (nth i r 0 < nth j r 0 /\ nth j (argsort_plus_1 r) 0 < nth i (argsort_plus_1 r) 0)%nat.
+Proof.
+  exists [2; 1; 1]%nat. split; [vm_compute; discriminate|].
+  exists 1%nat, 0%nat. vm_compute. split; repeat constructor.
+Qed.
